@@ -27,7 +27,14 @@ ASSUMPTIONS = [
 ]
 MAXTASKS = 40
 
+HELPER = '''
+def claim(name):
+    task.unique(name)
+    return task.name2id(name)
+'''
+
 SRC = '''
+import helper
 def body(i, ops):
     TASKS[i] = task.current_task()
     marks.append((i, "start"))
@@ -36,6 +43,10 @@ def body(i, ops):
         if op[0] == "u":
             task.unique(op[1], kill_me=op[2])
             marks.append((i, n, "u-ret"))
+        elif op[0] == "mu":
+            # claimed and looked up inside a function of an imported module: the name lives in the module's context
+            who = helper.claim(op[1])
+            marks.append((i, n, "mu-ret" if who is task.current_task() else "mu-ret-WRONG-OWNER-REPORTED"))
         elif op[0] == "sleep":
             task.sleep(5)
             marks.append((i, n, "slept"))
@@ -60,6 +71,7 @@ def trig_k(i=None, ops=None, **kw):
 '''
 
 U1, K1, U2, SL, RA = ("u", "n1", False), ("u", "n1", True), ("u", "n2", False), ("sleep",), ("raise",)
+MU = ("mu", "n1")
 OPS_FULL = [U1, K1, U2, SL, RA]
 OPS_CORE = [U1, K1, RA]
 
@@ -108,9 +120,9 @@ class Model:
             for k in [k for k, v in self.owner.items() if v == j]:
                 del self.owner[k]
 
-    def unique(self, i, name, kill_me):
-        kind, ctx, _ = self.parts[i]
-        key = (ctx, name)
+    def unique(self, i, name, kill_me, ctx=None):
+        kind, own_ctx, _ = self.parts[i]
+        key = (ctx or own_ctx, name)
         o = self.owner.get(key)
         if kill_me:
             if o is not None and o != i:
@@ -147,6 +159,9 @@ class Model:
             if op[0] == "u":
                 if self.unique(i, op[1], op[2]):
                     self.marks.append((i, pc, "u-ret"))
+            elif op[0] == "mu":
+                if self.unique(i, op[1], False, ctx="helper"):
+                    self.marks.append((i, pc, "mu-ret"))
             elif op[0] == "sleep":
                 self.sleeping[i] = True
                 self.sleep_order.append(i)
@@ -188,7 +203,7 @@ class Run:
         from mc.world import World
 
         self.parts = parts
-        files = {"a.py": SRC.replace("CTX", "a"), "b.py": SRC.replace("CTX", "b")}
+        files = {"a.py": SRC.replace("CTX", "a"), "b.py": SRC.replace("CTX", "b"), "modules/helper.py": HELPER}
         self.w = w = World(files, legacy=legacy, capture_logs=True, log_level=logging.ERROR)
         self.marks, self.tasks, self.gates = [], {}, {}
         self.foreign = {}
@@ -388,6 +403,14 @@ def configs(tier):
             continue
         for p0, p1 in itertools.product(core1, repeat=2):
             out.append(([(k0, "a", p0), (k1, "a", p1)], 1))
+    # decorated functions in two different contexts use the same unique name independently of each other
+    for k0, k1 in itertools.product(("trgU", "trgK"), repeat=2):
+        for p0, p1 in itertools.product(core1, repeat=2):
+            out.append(([(k0, "a", p0), (k1, "b", p1)], 0))
+    # names claimed and looked up inside a function of an imported module (shared by both importing contexts)
+    for ctxs in (("a", "a"), ("a", "b")):
+        for p0, p1 in itertools.product([(MU,), (MU, U1), (U1, MU)], repeat=2):
+            out.append(([("svc", ctxs[0], p0), ("svc", ctxs[1], p1)], 0))
     # a foreign task
     for p0 in core1:
         out.append(([("svc", "a", p0), ("foreign", "a", (U1,))], 1))
